@@ -109,7 +109,10 @@ def judge(job, r, ctx_seed=0, want=("C01", "C02", "C03", "C05", "C06", "C07", "C
         if 8 * info.get("ss_need", 0) > cap:
             r["_ss_padded"] = r["files"]["ss"] + "00" * (8 * info["ss_need"] - cap)
     rng = random.Random(ctx_seed * 31 + len(r["files"]["jit"]))
-    L1 = M.Layout()
+    # the data section, the stack and the shadow stack are placed after the end of the image, whatever its size
+    code_bytes = (len(r["files"]["int"]) + len(r["files"]["jit"])) // 2
+    top = (0x80002A24 + code_bytes + 0x20000) // 0x1000 * 0x1000
+    L1 = M.Layout(data_base=top, stack_top=top + 0x200000, ss_base=top + 0x300000)
     budget = (expected_steps or 200000) * 3 + 1000
     if budget > 4_000_000:
         return issues          # too long for the extracted machine in this tier; the static judge still applied
